@@ -197,8 +197,12 @@ func (ns *Namespace) UnmarshalYAML(value *yaml.Node) error {
 		nameNode := value.Content[i]
 		typeNode := value.Content[i+1]
 
+		if nameNode.Tag == "!!null" {
+			return parseError(nameNode, "a type name cannot be null")
+		}
+
 		meta := &DefinitionMeta{}
-		if err := nameNode.DecodeWithOptions(&meta, yaml.DecodeOptions{KnownFields: true}); err != nil {
+		if err := nameNode.DecodeWithOptions(meta, yaml.DecodeOptions{KnownFields: true}); err != nil {
 			return err
 		}
 
